@@ -75,13 +75,17 @@ pub struct TableProvider {
 impl TableProvider {
     pub fn new(u: Rc<Universe>) -> Self {
         let ix = Rc::new(Index::new(&u));
+        // step budget: far above any legitimate count (largest seen in millions of ordinary
+        // cases: < 300 polls; huge-package stages: a few thousand), scaled with the universe
+        let solvables: u64 = u.packages.iter().map(|p| p.cands.len() as u64).sum();
+        let budget = 50_000u64.max(solvables * 100);
         TableProvider {
             u,
             ix,
             log: Rc::new(RefCell::new(Vec::new())),
             polls: Cell::new(0),
             cancel: Cell::new(Cancel::Never),
-            poll_budget: Cell::new(50_000),
+            poll_budget: Cell::new(budget),
             sched: None,
             probe: Cell::new(SortProbe::Off),
             probe_log: RefCell::new(Vec::new()),
